@@ -767,9 +767,15 @@ pub fn encode(book: &MBook, ch: &XlsxChoices, rng: &mut Rng) -> Encoded {
     wb.push_str(&format!("{}<{}>{}{}</{}>", e.nl(), e.q("sheets"), sheet_elems, e.nl(), e.q("sheets")));
     if !book.defined_names.is_empty() {
         wb.push_str(&format!("{}<{}>", e.nl(), e.q("definedNames")));
+        // a name may be defined once per scope: repeated names are sheet-scoped (localSheetId)
+        let mut seen: BTreeMap<&str, usize> = BTreeMap::new();
         for (n, v) in &book.defined_names {
             let body = xml::text(v, ch.text_mode, e.rng);
-            wb.push_str(&format!("<{0} name=\"{1}\">{2}</{0}>", e.q("definedName"), xml::attr(n), body));
+            let k = seen.entry(n.as_str()).or_insert(0);
+            let dup = book.defined_names.iter().filter(|x| x.0 == *n).count() > 1;
+            let scope = if dup { format!(" localSheetId=\"{}\"", (*k).min(book.sheets.len().saturating_sub(1))) } else { String::new() };
+            *k += 1;
+            wb.push_str(&format!("<{0} name=\"{1}\"{3}>{2}</{0}>", e.q("definedName"), xml::attr(n), body, scope));
         }
         wb.push_str(&format!("</{}>", e.q("definedNames")));
     }
